@@ -90,3 +90,12 @@ NOT_COVERED["C11"] = [
     "LoanManager.get_loans / get_loan listings are TRUSTED (iteration plumbing)",
     "'loans are closed only by ...' is the frame of every contract: Loan._is_open is in the modifies clause of LoanManager.repay_loan and cancel_loan only (cancel_loan asserts the loan was created at the current instant: the rollback of an auto-borrow)",
 ]
+
+LEVELS["C17"] = "other"
+ASSUMPTIONS["C17"] = ["Decimal(text) is the uninterpreted dec(text); strings are uninterpreted symbols with distinct literals"]
+NOT_COVERED["C17"] = [
+    "encoding side: 'every amount and price is transmitted with exactly that numeric value in plain fixed-point notation': Decimals are modelled as reals, so the text produced by str(Decimal) (exponent notation for small values) cannot be expressed -- set_optional_params and the Bitstamp create_*_order formatters are not under contract",
+    "timestamps: fromtimestamp(ms / 1e3) goes through binary floating point; floats are treated as reals here, so loss of precision cannot be decided",
+    "endpoint / side / symbol selection per client method, the JSON wrapper classes and the websocket payload decoders: not under contract",
+    "what is decided: the Binance order-status, order-list-status and side look-up tables are total on the documented values and refuse anything else; get_optional_decimal returns the parsed value or None",
+]
